@@ -198,6 +198,7 @@ PROPS = {
     },
     "C05": {
         "sub": "fw",
+        "divergence_is_counterexample": True,
         "n": {"quick": 3000, "thorough": 200000},
         "coq_sample": {"quick": 25, "thorough": 200},
         "rule": FW_RULE % "at least one action was returned",
